@@ -11,6 +11,10 @@ cp /repo/src/fandango/language/parser/sa_fandango_cpp_parser.so "$WT/src/fandang
 cd "$WT"
 PYTHONPATH=$WT/src PYTHONHASHSEED=0 timeout 600 /venv/bin/python "$D/demo.py" > "$D/demo_without.log" 2>&1; RC0=$?
 git apply "$D/patch.diff" || { echo "$NAME: patch does not apply"; git -C /repo worktree remove --force "$WT"; exit 9; }
+if grep -q 'cpp_parser/' "$D/patch.diff"; then
+  # a change to the C++ front end: rebuild the extension from the patched sources and install it in the worktree
+  SO=$(/verif/tools/build_cpp.sh "$WT/src/fandango/language/cpp_parser" | tail -1) && cp "$SO" "$WT/src/fandango/language/parser/sa_fandango_cpp_parser.so"
+fi
 PYTHONPATH=$WT/src PYTHONHASHSEED=0 timeout 600 /venv/bin/python "$D/demo.py" > "$D/demo_with.log" 2>&1; RC1=$?
 SUITE_RES="not run"
 if [ "$SUITE" = "suite" ]; then
